@@ -561,7 +561,7 @@ Qed.
 
 Record Notif (s : state) : Prop := {
   N_listen : listen s = 0 \/ listen s = 1 \/ listen s = 2;
-  N_closed : earlypoll s = false -> forall c, cst s c = CClosed -> notified s c = true;
+  N_closed : earlypoll s = false -> returned (ph s) = false -> forall c, cst s c = CClosed -> notified s c = true;
   N_two : listen s = 2 -> forall c, inmap s c = true -> cst s c <> CClosed -> notified s c = true;
   N_inpoll : inpoll s = true -> earlypoll s = false -> listen s = 2;
   N_polled : forall c, polled s c = true -> earlypoll s = false -> listen s = 2
@@ -611,15 +611,17 @@ Proof.
 Qed.
 
 Lemma step_N_closed : forall s l s', Safe s -> Notif s -> stepW s l = Some s' ->
-  earlypoll s' = false -> forall c, cst s' c = CClosed -> notified s' c = true.
+  earlypoll s' = false -> returned (ph s') = false -> forall c, cst s' c = CClosed -> notified s' c = true.
 Proof.
-  intros s l s' [J1 J2 J2' J3 J4 J5 J6 J7] [M0 M1 M2 M3 M4] H He c0 Hc.
-  open_step H; split_guards; upd_cases; try (apply M1; assumption); try congruence; try discriminate.
+  intros s l s' [J1 J2 J2' J3 J4 J5 J6 J7] [M0 M1 M2 M3 M4] H He Hp c0 Hc.
+  open_step H; split_guards; try discriminate Hp; upd_cases;
+    try (apply M1; solve [assumption | match goal with Hx : ph s = _ |- _ => rewrite Hx; reflexivity end]);
+    try congruence; try discriminate.
   - apply orb_false_iff in He. destruct He as [He1 He2].
-    destruct (listen s =? 1); [rewrite (M1 He1 c0 Hc); reflexivity | apply M1; assumption].
+    destruct (listen s =? 1); [rewrite (M1 He1 Hp c0 Hc); reflexivity | apply M1; assumption].
   - apply M2; auto; congruence.
   - apply M2; auto; congruence.
-  - apply M2; try congruence.
+  - rewrite Hp, orb_false_r in *. apply M2; try congruence.
     + eapply M4; eauto.
     + destruct (inmap s c) eqn:E; auto. destruct (J2 c E); congruence.
 Qed.
@@ -640,16 +642,17 @@ Proof.
 Qed.
 
 (* C12, clause "connected clients are sent the reconnect notification": provided no poller tick began while the
-   listener was still up, a connection is closed by the server only after the close message was written to it *)
-Theorem closed_after_notification : forall s, reachable s -> earlypoll s = false ->
+   listener was still up, every connection closed by the server until Shutdown returns was closed only after the
+   close message had been written to it *)
+Theorem closed_after_notification : forall s, reachable s -> earlypoll s = false -> returned (ph s) = false ->
   forall c, cst s c = CClosed -> notified s c = true.
 Proof. intros s Hr. apply (N_closed s (reachable_Notif s Hr)). Qed.
 
 (* at the closing step itself the message had already been written *)
 Theorem close_step_notified : forall s l s' c, reachable s -> stepW s l = Some s' ->
-  cst s c <> CClosed -> cst s' c = CClosed -> earlypoll s' = false -> notified s c = true.
+  cst s c <> CClosed -> cst s' c = CClosed -> earlypoll s' = false -> returned (ph s') = false -> notified s c = true.
 Proof.
-  intros s l s' c Hr H Hn Hc He.
+  intros s l s' c Hr H Hn Hc He Hp.
   assert (Hs' : notified s' c = true).
   { apply closed_after_notification; auto. eapply reachable_step; eauto. }
   open_step H; split_guards; upd_cases; try contradiction; try discriminate; auto.
@@ -660,6 +663,19 @@ Qed.
 Theorem all_open_notified : forall s, reachable s -> listen s = 2 ->
   forall c, inmap s c = true -> cst s c <> CClosed -> notified s c = true.
 Proof. intros s Hr. apply (N_two s (reachable_Notif s Hr)). Qed.
+
+(* when Shutdown returns drained, every connection ever accepted has been sent the message *)
+Theorem drained_return_notified : forall s s', reachable s -> stepW s LPollReturn = Some s' ->
+  earlypoll s' = false -> forall c, In c (known s') -> notified s' c = true.
+Proof.
+  intros s s' Hr H He c Hk.
+  destruct (drained_return_sound s s' Hr H) as [_ [Hall _]].
+  pose proof (Hall c Hk) as Hc.
+  pose proof (reachable_Notif s Hr) as HN.
+  remember LPollReturn as l eqn:Hl.
+  open_step H; try discriminate Hl; split_guards.
+  apply (N_closed s HN He); auto. destruct (ph s); cbn in *; congruence.
+Qed.
 
 
 End Proofs.
@@ -736,7 +752,7 @@ Proof. vm_compute. reflexivity. Qed.
    deadline between its isClosed test and Accept) — a window of microseconds that was not exhibited on the code. *)
 Theorem notification_needs_listener_down :
   exists s, run 0 10 false init [LConnect 0; LShutdown; LPollBegin; LPollClose 0] = Some s /\
-            cst s 0 = CClosed /\ notified s 0 = false /\ earlypoll s = true.
+            cst s 0 = CClosed /\ notified s 0 = false /\ earlypoll s = true /\ returned (ph s) = false.
 Proof. eexists. split; [vm_compute; reflexivity|]. cbn. auto. Qed.
 
 (* non-trivial instances of the hypotheses used above *)
@@ -885,8 +901,8 @@ Proof.
         -- intros st x s2 Hx. cbn in Hx. destruct (inmap st x); [eapply reach_ensure_closed; eauto | inversion Hx; apply reach_refl].
         -- reflexivity.
       * eapply reach_trans; [apply reach_poll_tick | eapply reach_step; eauto].
-    + destruct (stepR (try W cap s LShutdown) LCtxExpire) eqn:E; inversion H; subst.
-      eapply reach_trans; [apply reach_try | eapply reach_step; eauto].
+    + destruct (stepR (poll_tick W cap (try W cap s LShutdown)) LCtxExpire) eqn:E; inversion H; subst.
+      eapply reach_trans; [apply reach_try|]. eapply reach_trans; [apply reach_poll_tick | eapply reach_step; eauto].
   - destruct (stepR s LExit) eqn:E; inversion H; subst. eapply reach_step; eauto.
 Qed.
 
@@ -1077,22 +1093,22 @@ Theorem c12_pipeline_advances : forall W cap early ls s l s', run W cap early in
 Proof. intros. eapply pipeline_step_advances; eauto using is_reachable. Qed.
 
 Definition c12_notification_statement : Prop :=
-  forall W cap early ls s, run W cap early init ls = Some s ->
+  forall W cap early ls s, run W cap early init ls = Some s -> returned (ph s) = false ->
   forall c, cst s c = CClosed -> notified s c = true.
 
 Theorem c12_notification_partial : forall W cap early ls s, run W cap early init ls = Some s ->
-  earlypoll s = false -> forall c, cst s c = CClosed -> notified s c = true.
+  earlypoll s = false -> returned (ph s) = false -> forall c, cst s c = CClosed -> notified s c = true.
 Proof. intros. eapply closed_after_notification; eauto using is_reachable. Qed.
 
 Theorem c12_notification_refuted : ~ c12_notification_statement.
 Proof.
-  intros H. destruct notification_needs_listener_down as [s [Hr [Hc [Hn _]]]].
-  specialize (H _ _ _ _ _ Hr 0 Hc). congruence.
+  intros H. destruct notification_needs_listener_down as [s [Hr [Hc [Hn [_ Hp]]]]].
+  specialize (H _ _ _ _ _ Hr Hp 0 Hc). congruence.
 Qed.
 
 Theorem c12_close_step_notified : forall W cap early ls s l s' c, run W cap early init ls = Some s ->
   step W cap early s l = Some s' -> cst s c <> CClosed -> cst s' c = CClosed -> earlypoll s' = false ->
-  notified s c = true.
+  returned (ph s') = false -> notified s c = true.
 Proof. intros. eapply close_step_notified; eauto using is_reachable. Qed.
 
 Theorem c12_all_open_notified : forall W cap early ls s, run W cap early init ls = Some s -> listen s = 2 ->
@@ -1104,6 +1120,11 @@ Theorem c12_drained_return_sound : forall W cap early ls s s', run W cap early i
   ph s' = SRetDrained /\ (forall c, In c (known s') -> cst s' c = CClosed) /\
   (forall c r, unanswered (rs s' c r) = false).
 Proof. intros. eapply drained_return_sound; eauto using is_reachable. Qed.
+
+Theorem c12_drained_return_notified : forall W cap early ls s s', run W cap early init ls = Some s ->
+  step W cap early s LPollReturn = Some s' -> earlypoll s' = false ->
+  forall c, In c (known s') -> notified s' c = true.
+Proof. intros. eapply drained_return_notified; eauto using is_reachable. Qed.
 
 Theorem c12_progress_refuted_before_fix :
   exists ls s, run 1 10 true init ls = Some s /\ alive (ph s) = true /\ unanswered (rs s 0 1) = true /\
